@@ -1,7 +1,9 @@
 -- GENERATED. Root of the regenerated fact tables.
 import MpsGen.Alg
 import MpsGen.Hash
+import MpsGen.Nonce
 import MpsGen.Paillier
 import MpsGen.Pool
 import MpsGen.Protocols
 import MpsGen.Session
+import MpsGen.Sig
